@@ -23,6 +23,7 @@ def main():
     ctx = common.Ctx(a.prop, a.tier, seed, mod)
     rc = 2
     try:
+        ctx.prepare_impl()
         if a.replay:
             with open(a.replay) as fh:
                 rec = json.load(fh)
